@@ -1000,6 +1000,7 @@ func specC17() *propertySpec {
 			{"C17-R4", "glob-cannot-fail: the glob pattern contains no metacharacter besides its own * (safe alphabet)", ruleC06R2},
 			{"C17-R5", "no-crash: panics during replay are converted (recover census); an exhausted buffer raises invalidData", func(r *Run) { ruleC02R4(r); ruleC03R4(r) }},
 			{"C17-R6", "only-a-reproduced-failure-ends-the-fail-file-phase: doCheck returns from the replay loop only when one of checkFailFile's errors is non-nil, and moves on only when both are nil (shared with C06-R5)", ruleC06R5},
+			{"C17-R7", "truncation-stays-invalid: a fail file cut off at a group boundary makes the group's first draw panic with invalidData; no endGroup runs on that panic path (deferred), where its assertion would replace the panic and make Check fail with an internal error instead of ignoring the file (shared with C13-R9)", ruleNoDeferredEndGroup},
 		},
 	}
 }
